@@ -33,6 +33,14 @@ def stepC26 (s : DS) (fs : List String) : DS × String :=
       let w := if v == .accepted then "accepted" else "rejected"
       ({ s with c := c' }, s!"{w} len={c'.entries.length}")
     | _, _ => (s, "bad-op")
+  | ["lmsg", _kind, now, sender, nonce, ts, mac] =>
+    -- real lifecycle: only the verdict is observable
+    match int? now, int? ts with
+    | some now, some ts =>
+      let e : Ev := { now := now, msg := { key := sender ++ "\x00" ++ nonce, ts := ts, macOk := mac == "1" } }
+      let (c', v) := handle s.cfg s.c e
+      ({ s with c := c' }, if v == .accepted then "accepted" else "rejected")
+    | _, _ => (s, "bad-op")
   | _ => (s, "bad-op")
 
 def main : IO Unit := Arc.Proto.run stepC26 {}
